@@ -323,6 +323,26 @@ def gen_subscribed_then_unencrypted(rng, vi):
     return cases
 
 
+def gen_gap_handles(rng, vi):
+    """every access kind aimed at handles that no attribute has (gap interiors of fixed handles, 0, last+1, last+2),
+    with all bound variables inspected afterwards: nothing may be read or written under a handle no attribute reports"""
+    real = set(vi.info.real)
+    last = max(real) if real else 0
+    gaps = [h for h in range(0, last + 3) if h not in real]
+    if len(gaps) > 12:
+        gaps = sorted(set(gaps[:3] + gaps[-3:] + rng.sample(gaps, 6)))
+    vals = ["val %d" % d["ci"] for d in vi.chars if d.get("var")]
+    cases = []
+    for h in gaps:
+        ops = []
+        for pdu in ("12%s%s" % (le16(h), AC.rnd_hex(rng, 1)), "52%s%s" % (le16(h), AC.rnd_hex(rng, 2)), "52%s%s" % (le16(h), AC.rnd_hex(rng, 1)),
+                    "16%s0000%s" % (le16(h), AC.rnd_hex(rng, 1)), "1801", "0a%s" % le16(h), "0c%s0000" % le16(h), "52%s0100" % le16(h)):
+            ops.append("in %d %s %d" % (rng.randrange(2), pdu, vi.mtu))
+            ops += vals
+        cases.append(ops)
+    return cases
+
+
 def gen_rw_boundaries(rng, vi):
     """per characteristic value: writes of every length around the size, blob reads at every offset around size and
     MTU, with the variable inspected after every write"""
